@@ -14,6 +14,7 @@ import (
 	"bufio"
 	"context"
 	"encoding/json"
+	"errors"
 	"fmt"
 	"os"
 
@@ -193,9 +194,25 @@ func (db *DB) basicExport(ctx context.Context, config *client.BackupConfig) (err
 		if err != nil {
 			return err
 		}
+		// The docID iterator must be finished before the transaction ends, also if we return early.
+		defer func() {
+			for range docIDsCh { //nolint:revive
+			}
+		}()
 
 		firstDoc := true
 		for docResultWithID := range docIDsCh {
+			if docResultWithID.Err != nil {
+				return docResultWithID.Err
+			}
+			doc, err := col.Get(ctx, docResultWithID.ID, false)
+			if errors.Is(err, client.ErrDocumentNotFoundOrNotAuthorized) {
+				// deleted documents are not part of the export
+				continue
+			}
+			if err != nil {
+				return err
+			}
 			if firstDoc {
 				firstDoc = false
 			} else {
@@ -204,10 +221,6 @@ func (db *DB) basicExport(ctx context.Context, config *client.BackupConfig) (err
 				if err != nil {
 					return err
 				}
-			}
-			doc, err := col.Get(ctx, docResultWithID.ID, false)
-			if err != nil {
-				return err
 			}
 
 			isSelfReference := false
